@@ -7,15 +7,43 @@ CFG = {
     "exe": "aqmodel_c09",
     "harness": "c09",
     "overlay": ["core/state/c09_access.go"],
+    "gen": ["statejournal"],
     "trivial_outputs": ["panic"],
-    "timeout": {"quick": 600, "thorough": 3000},
-    "rule": "placeholder",
-    "tie": {},
-    "assumptions": [],
-    "trusted_base": [],
+    "timeout": {"quick": 900, "thorough": 6000},
+    "rule": "one case = one history on the real state.StateDB over state.NewDatabase(MemDatabase): 240 directed histories (the interleavings named "
+            "in the property record: revert across self-destruct of a re-created account, suicide/finalise/re-create/revert, RIPEMD touch, storage "
+            "set/clear, CreateAccount balance carry-over, copy independence, refund wrap-around, nested log/preimage reverts) with random "
+            "continuation + 1800 random histories of 10-60 actions (thorough: 2400 + 40000, up to 80) drawn from create, add/sub/set balance, "
+            "set nonce, set code, set/clear storage, self-destruct, touch, log, refund, preimage, Prepare, snapshot, revert to any live id, "
+            "Finalise/IntermediateRoot/Commit with per-history uniform or mixed delete-empty flag, Reset/reopen at any committed root, Copy, "
+            "swap to the copy, net-effect replay; value lattice 0,1,2^64-1,2^64,2^255,2^256-1; a malformed stream (dead revert ids, overdrafts, "
+            "negative amounts, use after Commit). After every action every getter of 5 accounts x 3 slots, refund, logs, preimages, the dirty "
+            "set, callback flags and journal/revision lengths are compared with the Lean model; the real code is judged directly (J1 revert "
+            "restores the recorded view, J2 root = root of a plain trie built from the reported content, J3 reopen/Reset read back, J4 copy "
+            "reads back and is independent, J6 the history with reverted segments erased gives the same view and root). Non-trivial = the "
+            "history did not end in a panic (distinct histories counted).",
+    "tie": {"StateDB mutators, journal undo, Snapshot/RevertToSnapshot, Finalise, IntermediateRoot, Commit, Copy, Reset, New": "corr (Go vs Model.State, getters + dirty set + callback flags + journal length after every action)",
+            "journal append / raw setter call-site inventory of core/state": "gen (go/ast dump -> Aqv.Gen.StateJournal, theorem journalled_mutators_as_modelled)",
+            "state root": "corr as content classes (equal content <=> equal root over the whole history) + direct judgement against a plain trie.Trie; mptRoot itself is C10"},
+    "assumptions": ["account and storage tries are abstracted to total maps; 'the trie commits to exactly its content' is property C10 (mptRoot is a parameter of the C09 theorems)",
+                    "code is identified with its Keccak hash (collision freedom on the codes involved); read caches (stateObjects fill on read, cachedStorage, lazily loaded code) are not modelled and are unobservable through the getters",
+                    "a StateDB is not used after Commit without Reset/New (every caller in /repo resets; commit_reuse_loses_write_witness shows what happens otherwise)",
+                    "independence of a Copy from the original is a statement about aliasing in the Go heap: judged on the real code by the harness (J4), trivial in the value-semantics model",
+                    "Go runtime, math/big and the cryptographic primitives are modelled, not verified (DESIGN.md 2.5)"],
+    "trusted_base": ["Model.State mirrors core/state/statedb.go, state_object.go, journal.go function by function (see the header of lean/Aqv/Model/State.lean)",
+                     "go/overlay/core/state/c09_access.go (read-only accessors for the dirty set, callback flags, trie leaves, journal length)"],
 }
 META = {
-    "technique": "Lean 4 proof about a model of the journalled StateDB tied to core/state by differential correspondence",
-    "text": "placeholder",
-    "note": GEN,
+    "technique": "Lean 4 proof (journal undo / revert exactness by induction over arbitrary nested histories, cache invariant => root commits to content) about a model of the journalled StateDB, tied to core/state by differential correspondence and a regenerated journal inventory",
+    "text": "Theorems over the Lean model of core/state (all histories, no bounds): revert_exact (any nesting of snapshots and any interleaving of the "
+            "11 journalled mutators; every getter, refund, logs, preimages, journal and revision stack restored) and its reachability version, "
+            "journal_complete, finalise_perm_invariant (Go map order), root_content_only / root_history_independent (after IntermediateRoot/Commit "
+            "the trie holds exactly the content the getters report), reopen_reads_back, copy_independent, and the _partial form of "
+            "revert_exact_through_finalise with the excluded set explicit. Four defects of the code as written are proved as concrete witness "
+            "theorems (F1 reverted write leaves the account dirty, F2 reverted touch disarms dirty tracking and loses later writes, F3 mixed "
+            "delete-empty flags re-insert a deleted account, F4 the deliberate RIPEMD exception) and are re-found on the real code on every run as "
+            "known findings. Every run re-proves the theorems, regenerates the journal inventory from the source, and replays >2000 histories "
+            "(>60 000 actions) on the real StateDB and the compiled model with identical observations required after every action.",
+    "note": GEN + " The full statement revert_exact_through_finalise is FALSE for the code as written (witness theorems); the partial theorem names the excluded histories. "
+            "root_content_only is relative to C10 (mptRoot abstract). The independent Merkle root is recomputed on the Go side with the plain trie package, not in Lean.",
 }
